@@ -239,6 +239,8 @@ func checkC13(ctx *Ctx, r *Report, tier string) {
 		r.undecided("S9", "SaveSTL", 0, "not found")
 	}
 
+	ruleLoaderStartsAtByteZero(ctx, r)
+
 	// S4 writers
 	type recTerms map[string]*Term
 	writerRecord := func(fnName string, fn *ssa.Function) (recTerms, string, bool) {
@@ -847,4 +849,125 @@ func goodPathsHit(fn *ssa.Function, hit func(ssa.Instruction) bool) bool {
 		return false
 	}
 	return walk(fn.Blocks[0])
+}
+
+// ruleLoaderStartsAtByteZero (S10): LoadSTL probes the file (reads the would-be binary header to
+// compare sizes) before it picks a loader. Both loaders parse a whole file: whatever the probe
+// consumed - in an ASCII file that is ordinary text, possibly the first vertex lines - must be
+// given back. Decided on the CFG: on every path from a call that reads from the opened file to
+// a call that hands the file to a loader of the module, the file is rewound with Seek(0, 0).
+func ruleLoaderStartsAtByteZero(ctx *Ctx, r *Report) {
+	fn := ctx.ssaFunc("render", "LoadSTL")
+	if fn == nil {
+		r.undecided("S10", "LoadSTL", 0, "not found")
+		return
+	}
+	// the opened file: first result of a call returning (*os.File, error)
+	var file ssa.Value
+	allInstrs(fn, func(_ *ssa.BasicBlock, ins ssa.Instruction) {
+		if ex, ok := ins.(*ssa.Extract); ok && ex.Index == 0 && ex.Type().String() == "*os.File" {
+			file = ex
+		}
+	})
+	if file == nil {
+		r.undecided("S10", "LoadSTL", fn.Pos(), "no opened *os.File")
+		return
+	}
+	usesFile := func(c *ssa.CallCommon) bool {
+		for _, a := range c.Args {
+			v := a
+			for {
+				switch x := v.(type) {
+				case *ssa.MakeInterface:
+					v = x.X
+					continue
+				case *ssa.ChangeInterface:
+					v = x.X
+					continue
+				}
+				break
+			}
+			if v == file {
+				return true
+			}
+		}
+		return false
+	}
+	isRewind := func(ins ssa.Instruction) bool {
+		c, ok := ins.(*ssa.Call)
+		if !ok {
+			return false
+		}
+		g := c.Call.StaticCallee()
+		if g == nil || g.Name() != "Seek" || len(c.Call.Args) != 3 || c.Call.Args[0] != file {
+			return false
+		}
+		for _, a := range c.Call.Args[1:] {
+			k, ok := a.(*ssa.Const)
+			if !ok || k.Value == nil || k.Int64() != 0 {
+				return false
+			}
+		}
+		return true
+	}
+	isLoader := func(ins ssa.Instruction) bool {
+		c, ok := ins.(*ssa.Call)
+		if !ok {
+			return false
+		}
+		g := c.Call.StaticCallee()
+		return g != nil && inModule(g) && usesFile(&c.Call)
+	}
+	var reads []*ssa.Call
+	nLoaders := 0
+	allInstrs(fn, func(_ *ssa.BasicBlock, ins ssa.Instruction) {
+		c, ok := ins.(*ssa.Call)
+		if !ok {
+			return
+		}
+		if isLoader(ins) {
+			nLoaders++
+			return
+		}
+		if g := c.Call.StaticCallee(); g != nil && usesFile(&c.Call) {
+			switch g.Name() {
+			case "Stat", "Close", "Seek", "Name", "Fd", "Chmod", "Sync":
+				return
+			}
+			reads = append(reads, c)
+		}
+	})
+	if nLoaders == 0 || len(reads) == 0 {
+		r.check("S10", "LoadSTL|loaders-start-at-byte-0", fn.Pos(), true, fmt.Sprintf("%d reads of the opened file before %d loader calls that take it: nothing to rewind", len(reads), nLoaders))
+		r.floor("S10", 1)
+		return
+	}
+	bad := ""
+	for _, rd := range reads {
+		seen := map[*ssa.BasicBlock]bool{}
+		var walk func(b *ssa.BasicBlock, i int)
+		walk = func(b *ssa.BasicBlock, i int) {
+			for ; i < len(b.Instrs); i++ {
+				ins := b.Instrs[i]
+				if isRewind(ins) {
+					return
+				}
+				if isLoader(ins) {
+					if len(bad) < 300 {
+						bad += fmt.Sprintf(" %s at %s gets the file after %s at %s read from it, without Seek(0, 0) in between;", calleeName(&ins.(*ssa.Call).Call), ctx.pos(ins.Pos()), calleeName(&rd.Call), ctx.pos(rd.Pos()))
+					}
+					return
+				}
+			}
+			for _, su := range b.Succs {
+				if !seen[su] {
+					seen[su] = true
+					walk(su, 0)
+				}
+			}
+		}
+		walk(rd.Block(), instrIndex(rd)+1)
+	}
+	r.check("S10", "LoadSTL|loaders-start-at-byte-0", fn.Pos(), bad == "", fmt.Sprintf("%d reads of the opened file, %d loader calls;%s", len(reads), nLoaders, bad))
+	r.floor("S10", 1)
 }
